@@ -79,8 +79,11 @@ class CallCounter:
     def __init__(self):
         self.calls = 0
         self.raise_at = None
+        self.probe = None          # run inside every predicate body (nested evaluation + concrete constructions)
 
     def tick(self):
+        if self.probe is not None:
+            self.probe()
         self.calls += 1
         if self.raise_at is not None and self.calls == self.raise_at:
             raise UserRaise(self.calls)
@@ -88,6 +91,10 @@ class CallCounter:
 
 class UserRaise(Exception):
     pass
+
+
+class ModeLeak(Exception):
+    """Inside a predicate body (evaluation in progress) something behaved symbolically."""
 
 
 class Built:
@@ -106,6 +113,8 @@ class Built:
         self._make_classes()
         self._make_objects()
         self._make_predicates()
+        if case.get('nested_eval'):
+            self._make_probe()
 
     # -- dataset -------------------------------------------------------------------------------
     def _make_classes(self):
@@ -151,6 +160,36 @@ class Built:
                 return make_dataclass('P_' + name, fields, bases=(Predicate,), eq=False,
                                       namespace={'__call__': call})
             self.cls_preds[name] = make_cls()
+
+    def _make_probe(self):
+        """A user predicate whose body runs its OWN evaluate() and then uses a Predicate subclass concretely: whatever
+        the ambient mode of the outer evaluate(), the body is ordinary Python."""
+        root = self.case['classes'][0][0]
+        cls0 = self.classes[root]
+        members = [o for o in self.objs if isinstance(o, cls0)]
+        with symbolic_mode():
+            pz = let(cls0, list(members), name='probe')
+            probe_q = an(entity(pz, pz.a == pz.a))
+        big = self.cls_preds['is_big']
+        raw_big = RAW_FNS['is_big']
+        busy = []
+
+        def probe():
+            if busy or not members:
+                return
+            busy.append(1)
+            try:
+                rows = list(probe_q.evaluate())
+                if len(rows) != len(members) or any(r is not m for r, m in zip(rows, members)):
+                    raise ModeLeak('a nested evaluate() in a predicate body returned %r' % [type(r).__name__ for r in rows])
+                p = big(members[0])
+                if type(p) is not big:
+                    raise ModeLeak('constructing a Predicate subclass in a predicate body gave a ' + type(p).__name__)
+                if bool(p()) != bool(raw_big(members[0])):
+                    raise ModeLeak('calling a Predicate subclass instance in a predicate body gave a wrong value')
+            finally:
+                busy.pop()
+        self.counter.probe = probe
 
     def decode(self, v):
         k = v[0]
@@ -209,6 +248,11 @@ class Built:
                 spec = pform[vid]
                 pos = [self.pform_value(v) for v in spec.get('pos', [])]
                 kw = {k: self.pform_value(v) for k, v in spec.get('kw', [])}
+                if vid in (self.case.get('nodom') or ()):
+                    # no From(...): the variable ranges over every instance of the class known to the process,
+                    # and its keyword constraints are attached lazily, at evaluation time
+                    self.vars[vid] = self.classes[cls](*pos, **kw)
+                    continue
                 self.vars[vid] = self.classes[cls](From([self.decode(v) for v in raw]), *pos, **kw)
             else:
                 self.vars[vid] = let(self.classes[cls], [self.decode(v) for v in raw], name=f"v{vid}")
